@@ -383,7 +383,7 @@ double relBoundRatio, double pwrBoundRatio, size_t r5, size_t r4, size_t r3, siz
 	else if(dataType==SZ_UINT8)
 	{
 		unsigned char *newByteData;
-		SZ_compress_args_uint8(&newByteData, data, r5, r4, r3, r2, r1, outSize, errBoundMode, absErrBound, relBoundRatio);
+		SZ_compress_args_uint8(&newByteData, data, _r5, _r4, _r3, _r2, _r1, outSize, errBoundMode, absErrBound, relBoundRatio);
 		return newByteData;
 	}
 	else
